@@ -13,10 +13,10 @@ def isOutcome : Ev → Bool
   | .success | .error | .failure | .skip => true
   | _ => false
 
-/-- exactly one outcome between startTest and stopTest; `run()` returned -/
+/-- exactly one outcome between startTest and stopTest -/
 def cBracket (_ : Prog) (t : Trace) : Bool :=
   match t.events with
-  | [.startTest, x, .stopTest] => isOutcome x && !t.raised
+  | [.startTest, x, .stopTest] => isOutcome x
   | _ => false
 
 def outcome (t : Trace) : Option Ev :=
@@ -43,14 +43,28 @@ def number : Nat → List Stage → List (Nat × Stage)
   | _, [] => []
   | i, c :: cs => (i, c) :: number (i + 1) cs
 
+/-- the cleanups in the order in which they run: pop the top of the stack; the cleanups it registers (numbered
+from `next`) go on top.  `fuel` only has to exceed the number of stages on the stack, counted transitively. -/
+def expand : Nat → Nat → List (Nat × Stage) → List (SName × Stage)
+  | 0, _, _ => []
+  | _ + 1, _, [] => []
+  | n + 1, next, (i, c) :: rest =>
+    (SName.cleanup i, c) :: expand n (next + c.cleanups.length) ((number next c.cleanups).reverse ++ rest)
+
 /-- the stages the chain goes through when nothing stops it: setUp; the test and tearDown iff setUp went
-well; then every cleanup registered by a stage that ran, last registered first -/
+well; then every cleanup registered by a stage that ran, last registered first (cleanups registered by a
+cleanup run right after it) -/
 def path (p : Prog) : List (SName × Stage) :=
-  let ok := behOk p.setUp.stage.beh
-  let registered := p.setUp.cleanups ++ (if ok then p.body.cleanups ++ p.tearDown.cleanups else [])
-  (SName.setUp, p.setUp.stage) ::
-    ((if ok then [(SName.body, p.body.stage), (SName.tearDown, p.tearDown.stage)] else []) ++
-     (number 0 registered).reverse.map (fun ic => (SName.cleanup ic.1, ic.2)))
+  let s1 := (number 0 p.setUp.cleanups).reverse
+  let n1 := p.setUp.cleanups.length
+  (SName.setUp, p.setUp) ::
+    (if behOk p.setUp.beh then
+      let s2 := (number n1 p.body.cleanups).reverse ++ s1
+      let n2 := n1 + p.body.cleanups.length
+      let s3 := (number n2 p.tearDown.cleanups).reverse ++ s2
+      let n3 := n2 + p.tearDown.cleanups.length
+      (SName.body, p.body) :: (SName.tearDown, p.tearDown) :: expand (stackSize s3 + 1) n3 s3
+     else expand (stackSize s1 + 1) n1 s1)
 
 /-- the log is a prefix of the path and every stage starts no earlier than its predecessor was over
 (`earliest = none`: the predecessor never fires, nothing may follow) -/
@@ -109,9 +123,24 @@ runs the observers are: (unless suppressed) those, (if stored) the capturing one
 def cCleanAfter (p : Prog) (t : Trace) : Bool :=
   t.pending == 0 && t.obsRestored && t.stages.all (fun s => s.2.2 == duringCount p)
 
+def hasKI : Beh → Bool
+  | .raise .ki | .failD _ .ki => true
+  | _ => false
+
+def isMain : SName → Bool
+  | .cleanup _ => false
+  | _ => true
+
+/-- `run()` re-raises only an exception no handler claims, after having reported an error; it does so whenever
+setUp, the test method or tearDown raised one; and only if some stage that ran raised / failed with one -/
+def cUnclaimed (p : Prog) (t : Trace) : Bool :=
+  (!t.raised || outcome t == some .error) &&
+  (!(((path p).take t.stages.length).any fun x => isMain x.1 && x.2.beh == Beh.raise .ki) || t.raised) &&
+  (!t.raised || (ranStages p t).any fun st => hasKI st.beh)
+
 def clauses : List (String × (Prog → Trace → Bool)) :=
   [("bracket", cBracket), ("sequential", cSequential), ("success-iff", cSuccessIff),
-   ("timeout-interrupt", cTimeoutInterrupt), ("clean-after", cCleanAfter)]
+   ("timeout-interrupt", cTimeoutInterrupt), ("clean-after", cCleanAfter), ("unclaimed", cUnclaimed)]
 
 def holds (p : Prog) (t : Trace) : Bool := clauses.all fun c => c.2 p t
 
